@@ -32,8 +32,8 @@ META = {
     "Deribit book and include scripted portfolios that make the markets themselves act in update() (aave liquidation, "
     "option delivery/expiry, squeeth liquidation / debt reduction). Evaluations = comparisons of the log checker (hook "
     "order and bar seen per hook, market status per hook, update exactly once per market per bar and inside its window, "
-    "trigger window and fire counts, per action: stamp, delivery count, delivery bar, per accepted operation: record "
-    "produced, history list / dataframe rows, timestamps and prices). Non-trivial = a bar in which at least one action was "
+    "market row cells per hook, trigger window and fire counts, per action: stamp, delivery count, delivery bar, per accepted "
+    "operation: record produced, history list / dataframe rows, timestamps and prices). Non-trivial = a bar in which at least one action was "
     "recorded; distinct by (interval, mix, phases in which actions were recorded, market-generated action types).",
     "assumptions": [
         "resampled time index = left-labelled bins of the interval aligned to midnight (what pandas resample yields by default) "
@@ -42,6 +42,9 @@ META = {
         "the hourly book alone is run at 1min (bars = book hours, holes allowed), 1h and 4h only",
         "operations issued in initialize() belong to bar 0 (the timestamp current when it runs); nothing is issued in finalize()",
         "the extra market-status refresh after on_bar is recorded and only required to carry the bar's own timestamp",
+        "'the strategy sees bar t' is read off the hooks: snapshot.timestamp, every market's market_status.timestamp, and cells of "
+        "every market's status row (ticks, indices, norm factor, pool figures, book underlying) which must be among the raw rows "
+        "inside the bar's bin (how a bin is aggregated is not prescribed; the hourly book shows the rows of the bar's hour)",
         "'produces its action record' is required of accepted operations that have an action type: exempt are aave "
         "change_collateral, wallet subtract_from_balance, and helpers that legitimately do nothing (remove_all_liquidity without "
         "positions, even_rebalance of a balanced wallet, collect_fee / remove_liquidity(collect) of nothing)",
@@ -53,7 +56,7 @@ META = {
 
 
 def plan(tier, seed):
-    n = 36 if tier == "quick" else 400
+    n = 72 if tier == "quick" else 1000
     return [{"shard": i, "cases": n} for i in range(NSHARDS)]
 
 
@@ -75,6 +78,7 @@ class Rec:
         self.log = []
         self.keep = []  # keeps action objects alive so that id() stays unique
         self.ids = {}
+        self.fingerprints = {}  # market name -> callable() -> [(column, value)] read from the market's current status row
 
     def uid(self, obj):
         k = id(obj)
@@ -197,6 +201,7 @@ def _mk_hook(name, fn):
                 "mts": {mi.name: norm(m.market_status.timestamp) for mi, m in self.broker.markets.items()},
                 "rows": len(hist),
                 "last_row_ts": norm(hist[-1].timestamp) if len(hist) else None,
+                "fp": {nm: g() for nm, g in r.fingerprints.items()},
             }
         r.log.append(("HB", name, ts, obs))
         try:
@@ -309,6 +314,16 @@ class SqWorld(W.SqueethWorld):
         self.uni_raw = W.uni_raw(rng, self.index, ticks, ticks[0], liq, vols, "float")
 
 
+def fpv(x):
+    """canonical text of a data cell (Decimal as is, numbers through float)"""
+    if isinstance(x, Decimal):
+        return "D" + str(x)
+    try:
+        return "f" + repr(float(x))
+    except Exception:  # noqa
+        return "s" + str(x)
+
+
 def floor_to(ts: datetime, step_min: int) -> datetime:
     day = ts.replace(hour=0, minute=0, second=0, microsecond=0)
     mins = int((ts - day).total_seconds() // 60)
@@ -361,6 +376,7 @@ class World:
         self.aligned = (off % step == 0)
         idx = [start + timedelta(minutes=i) for i in range(n)]
         self.markets, self.kits, self.seeds, self.times = [], [], [], {}
+        self.fp_get, self.fp_raw = {}, {}  # fingerprints: what a market's status row shows / the raw rows it may come from
         frames = []
         assets = {}
         self.dm = self.am = self.sm = None
@@ -387,6 +403,7 @@ class World:
                 self.markets.append(um)
                 self.kits.append(G.UniKit(um))
                 self.times["uni"] = idx
+                self._fp_series("uni", um, idx, {"closeTick": uw.raw["closeTick"].tolist(), "openTick": uw.raw["openTick"].tolist()})
                 pdf, _q = um.get_price_from_data()
                 frames.append(pdf)
                 self.um = um
@@ -398,6 +415,8 @@ class World:
                 self.markets.append(am)
                 self.kits.append(G.AaveKit(am, aw))
                 self.times["aave"] = idx
+                self._fp_series("aave", am, idx, {("WBTC", "liquidity_index"): aw.data["WBTC"]["liquidity_index"].tolist(),
+                                                  ("DAI", "variable_borrow_index"): aw.data["DAI"]["variable_borrow_index"].tolist()})
                 # collateral price path: flat, then one or two crashes sized to push the health factor under 1
                 risk = aw.risk["WBTC"]
                 f1 = float(Decimal("0.93") * risk["ltv"] * Decimal("0.96") / risk["lt"])
@@ -422,6 +441,8 @@ class World:
                 self.markets += [um2, sm] if rng.random() < 0.7 else [sm, um2]
                 self.kits += [G.SqueethKit(sm, um2), G.UniKit(um2)]
                 self.times["sqpool"] = self.times["squeeth"] = idx
+                self._fp_series("squeeth", sm, idx, {"norm_factor": sw.data["norm_factor"].tolist(), "WETH": sw.data["WETH"].tolist()})
+                self._fp_series("sqpool", um2, idx, {"closeTick": sw.uni_raw["closeTick"].tolist(), "openTick": sw.uni_raw["openTick"].tolist()})
                 frames.insert(0, sw.prices())  # WETH / OSQTH as the squeeth data has them
                 self.sm, self.um2 = sm, um2
                 self.seeds.append(self._seed_squeeth)
@@ -431,6 +452,7 @@ class World:
                 self.markets.append(gm)
                 self.kits.append(G.GmxKit(gm, gw))
                 self.times["gmx"] = idx
+                self._fp_series("gmx", gm, idx, {"aum": gw.data["aum"].tolist(), "weth_price": gw.data["weth_price"].tolist()})
                 frames.append(gw.prices())
             elif p == "gmx2":
                 g2 = W.Gmx2World(rng, n=n, start=start)
@@ -438,11 +460,15 @@ class World:
                 self.markets.append(m2)
                 self.kits.append(G.Gmx2Kit(m2, g2))
                 self.times["gmx2"] = idx
+                self._fp_series("gmx2", m2, idx, {"longPrice": g2.data["longPrice"].tolist(), "poolValue": g2.data["poolValue"].tolist()})
                 frames.append(g2.prices())
             elif p == "deribit" and mix != "deribit":
                 hour0 = idx[0].replace(minute=0)
                 H = int((idx[-1].replace(minute=0) - hour0).total_seconds() // 3600) + 1
-                self._deribit(rng, hour0, H, ())
+                miss = ()
+                if step <= 60 and H >= 3 and rng.random() < 0.3:  # holes in the book (no resampling of the book up to 1 h)
+                    miss = tuple(hour0 + timedelta(hours=h) for h in rng.sample(range(0, H), rng.choice([1, 2])))
+                self._deribit(rng, hour0, H, miss)
                 frames.append(pd.DataFrame({"ETH": self.dw.minute_prices(idx)}, index=pd.DatetimeIndex(idx)))
         # market order: the index-defining market is the first with the most timestamps; keep a minutely one first on ties
         if mix != "deribit" and self.dm is not None:
@@ -484,6 +510,42 @@ class World:
         self.exp_prices = expected_prices(self.price_rows, self.expected, interval)
 
     # ------------------------------------------------------------------ parts
+    def _fp_series(self, name, market, idx, cols):
+        self.fp_raw[name] = {c: [(idx[i], fpv(v)) for i, v in enumerate(vals)] for c, vals in cols.items()}
+        keys = list(cols)
+
+        def get():
+            d = market.market_status.data
+            return [(str(c), fpv(d[c])) for c in keys]
+
+        self.fp_get[name] = get
+
+    def allowed_rows(self):
+        """per bar and market: {column: set of raw values the bar's row may show} = the raw rows inside the bar's bin
+        (1min: the row itself; the hourly book without resampling: the rows of the bar's hour)"""
+        step = STEP_MIN[self.interval]
+        out = [dict() for _ in self.expected]
+        pos = {t: i for i, t in enumerate(self.expected)}
+        for name, cols in self.fp_raw.items():
+            hourly = cols.get("__hourly__", False)
+            for col, rows in cols.items():
+                if col == "__hourly__":
+                    continue
+                if hourly and step <= 60:
+                    by_hour = {}
+                    for ts, v in rows:
+                        by_hour.setdefault(ts, set()).add(v)
+                    for i, t in enumerate(self.expected):
+                        out[i].setdefault(name, {})[str(col)] = by_hour.get(t.replace(minute=0), set())
+                    continue
+                for d in out:
+                    d.setdefault(name, {})[str(col)] = set()
+                for ts, v in rows:
+                    i = pos.get(ts if step == 1 else floor_to(ts, step))
+                    if i is not None:
+                        out[i][name][str(col)].add(v)
+        return out
+
     def _deribit(self, rng, hour0, H, missing):
         n_i = rng.randint(2, 5)
         exps = []
@@ -501,6 +563,16 @@ class World:
         self.markets.append(dm)
         self.kits.append(G.DeribitKit(dm, dw))
         self.times["deribit"] = sorted(set(t.to_pydatetime() for t in dw.data.index.get_level_values(0)))
+        raw = [(t.to_pydatetime(), fpv(v)) for (t, _nm), v in dw.data["underlying_price"].items()]
+        self.fp_raw["deribit"] = {"underlying_price": raw, "__hourly__": True}
+
+        def book_fp():
+            d = dm.market_status.data
+            if d is None or len(d.index) == 0:
+                return []
+            return [("underlying_price", fpv(v)) for v in d["underlying_price"].tolist()]
+
+        self.fp_get["deribit"] = book_fp
         self.seeds.append(self._seed_deribit)
         self._dr_cash = False
 
@@ -684,6 +756,7 @@ class Case:
         install(w.markets, [bar_trigger_class(), AtTimeTrigger])
         strat = strategy_class()(self)
         rec = Rec()
+        rec.fingerprints = {m.market_info.name: w.fp_get[m.market_info.name] for m in w.markets if m.market_info.name in w.fp_get}
         tag = f"{w.mix}/{w.interval}"
         ctx = {"case": self.c, "mix": w.mix, "interval": w.interval, "minutes": w.n, "start": str(w.start),
                "markets": [m.market_info.name for m in w.markets], "bars": len(w.expected)}
@@ -711,7 +784,7 @@ class Case:
                                                   ("deribit/", "deribit"), ("uniswap/", "uniswap")) if site.startswith(pre)), "actuator")
             mon.violation(bad_market, "run", "raises", f"{type(crashed).__name__}@{site}",
                           f"[{tag} n={w.n}] Actuator.run raised after bar {self.i}: {crashed!r}\n{tb[-1200:]}", ctx)
-        R = O.check_log(rec.log, w.expected, [m.market_info.name for m in w.markets], self.trig_specs) if crashed is None else None
+        R = O.check_log(rec.log, w.expected, [m.market_info.name for m in w.markets], self.trig_specs, w.allowed_rows()) if crashed is None else None
         if R is None:
             return
         # ---- history
